@@ -378,11 +378,31 @@ fn parse_compact(evs: &str) -> Option<Vec<CEv>> {
     Some(v)
 }
 
+/// Token texts reach the builder through one long-lived scratch buffer, the way a lexer that assembles lexemes does: consecutive
+/// texts then sit at the *same address* (and often have the same length) with different contents, so anything that recognises
+/// a text by where it lies instead of by what it says is told apart from the crate as it is.
+pub fn with_scratch<R>(text: &str, f: impl FnOnce(&str) -> R) -> R {
+    use std::sync::Mutex;
+    static SCRATCH: Mutex<String> = Mutex::new(String::new());
+    let mut s = SCRATCH.lock().unwrap_or_else(|e| e.into_inner());
+    if s.capacity() < (1 << 20) {
+        let need = (1usize << 20) - s.len();
+        s.reserve(need);
+    }
+    s.clear();
+    s.push_str(text);
+    let r = f(s.as_str());
+    // leave other bytes behind: a text that is read again later through a remembered address must not find itself
+    s.clear();
+    s.push_str("\u{1}\u{1}\u{1}\u{1}\u{1}\u{1}\u{1}\u{1}");
+    r
+}
+
 fn apply_compact<'c, 'i>(b: &mut GreenNodeBuilder<'c, 'i, K, BoxI>, evs: &[CEv]) {
     for e in evs {
         match e {
             CEv::Start(k) => b.start_node(K(*k)),
-            CEv::Tok(k, t) => b.token(K(*k), t),
+            CEv::Tok(k, t) => with_scratch(t, |t| b.token(K(*k), t)),
             CEv::Stok(k) => b.static_token(K(*k)),
             CEv::Fin => b.finish_node(),
         }
@@ -547,6 +567,24 @@ impl Area for BuilderArea {
                     _ => "bad-op".into(),
                 }
             }
+            ["wabandon", c, evs] => {
+                // a builder that only borrows the cache is fed a prefix of a tree and dropped without `finish`
+                let slot = c.strip_prefix('c').and_then(|s| s.parse::<usize>().ok());
+                match (slot, parse_compact(evs)) {
+                    (Some(slot), Some(evs)) if slot < self.caches.len() && self.caches[slot].is_some() && self.builder.is_none() => {
+                        cx.count("op.wabandon");
+                        let mut cache = self.caches[slot].take().unwrap();
+                        let r = catch(std::panic::AssertUnwindSafe(|| {
+                            let mut b: GreenNodeBuilder<'_, '_, K, BoxI> = GreenNodeBuilder::with_cache(&mut cache);
+                            apply_compact(&mut b, &evs);
+                            drop(b);
+                        }));
+                        self.caches[slot] = Some(cache);
+                        if r.is_ok() { "ok".into() } else { "panic".into() }
+                    }
+                    _ => "bad-op".into(),
+                }
+            }
             ["builder", c] => {
                 let slot = c.strip_prefix('c').and_then(|s| s.parse::<usize>().ok());
                 match slot {
@@ -574,7 +612,7 @@ impl Area for BuilderArea {
             ["tok", k, h] => match (k.parse::<u32>(), unhex(h), self.builder.as_mut()) {
                 (Ok(k), Some(text), Some((b, _))) => {
                     let injected = b.interner().fail_next && static_of(k).is_none();
-                    let r = catch(|| b.token(K(k), &text));
+                    let r = catch(std::panic::AssertUnwindSafe(|| with_scratch(&text, |t| b.token(K(k), t))));
                     cx.count("op.tok");
                     if text.is_empty() {
                         cx.count("tok.empty");
